@@ -99,7 +99,7 @@ func Generate(profile string, seed uint64, tier string) (*Scenario, error) {
 		genC12c(g, sc, tier)
 	case "C11":
 		sc.Property = "C11"
-		genC11(g, sc, tier)
+		genC11(g, sc, tier, seed)
 	case "C15":
 		sc.Property = "C15"
 		genC15(g, sc, tier)
@@ -1564,7 +1564,7 @@ func genC15(g *G, sc *Scenario, tier string) {
 // genC11: jobs assembled from every building block the scheduler knows, with cron and on-change
 // triggers, error handlers and both run types; client tasks start, kill, pause, resume, re-configure and
 // delete them, write to monitored datasets and poll the status while simulated time lets cron fire.
-func genC11(g *G, sc *Scenario, tier string) {
+func genC11(g *G, sc *Scenario, tier string, seed uint64) {
 	// layered datasets: clients write layer 0, a job of level L reads and monitors layers <= L and writes
 	// layer L+1, so that no chain of on-change triggers feeds itself
 	layers := [][]string{{"dA", "dB"}, {"dC"}, {"dD"}}
@@ -1583,12 +1583,24 @@ func genC11(g *G, sc *Scenario, tier string) {
 	sc.Knobs["poolFull"] = int64(g.Range(1, 2))
 	sc.Knobs["preemptRaffle"] = int64(g.PickInt([]int{0, 1, 1}))
 	js := func(code string) string { return base64.StdEncoding.EncodeToString([]byte(code)) }
+	// the first job of a scenario walks the cross product of building blocks by seed index (8 sources x 6
+	// transforms x 5 sinks x 2 trigger types x 2 run types x 6 handler sets = 5760 cells); everything else
+	// is drawn at random
+	idx := int(seed % 10_000_000)
+	cell := map[string]int{"source": idx % 8, "transform": (idx / 8) % 6, "sink": (idx / 48) % 5, "trigger": (idx / 240) % 2, "type": (idx / 480) % 2, "handlers": (idx / 960) % 6}
+	walk := false
+	pick := func(dim string, n int, table []int) int {
+		if walk {
+			return table[cell[dim]]
+		}
+		return g.Intn(n)
+	}
 	source := func() map[string]any {
-		switch g.Intn(10) {
+		switch pick("source", 10, []int{0, 3, 4, 5, 6, 8, 8, 0}) {
 		case 0, 1, 2:
 			m := map[string]any{"Type": "DatasetSource", "Name": g.Pick(data)}
-			if g.P(0.4) {
-				m["LatestOnly"] = g.P(0.5)
+			if g.P(0.4) || (walk && cell["source"] == 7) {
+				m["LatestOnly"] = g.P(0.5) || walk
 			}
 			return m
 		case 3:
@@ -1610,7 +1622,7 @@ func genC11(g *G, sc *Scenario, tier string) {
 		}
 	}
 	sink := func() map[string]any {
-		switch g.Intn(8) {
+		switch pick("sink", 8, []int{0, 4, 5, 6, 6}) {
 		case 0, 1, 2, 3:
 			return map[string]any{"Type": "DatasetSink", "Name": g.Pick(layers[level+1])}
 		case 4:
@@ -1622,7 +1634,7 @@ func genC11(g *G, sc *Scenario, tier string) {
 		}
 	}
 	transform := func() map[string]any {
-		switch g.Intn(9) {
+		switch pick("transform", 9, []int{0, 4, 6, 7, 8, 4}) {
 		case 0, 1, 2, 3:
 			return nil
 		case 4, 5:
@@ -1641,6 +1653,23 @@ func genC11(g *G, sc *Scenario, tier string) {
 	}
 	handlers := func() []any {
 		var l []any
+		if walk {
+			// none, log, reRun, log+reRun, reQueue, log+reRun+reQueue
+			set := [][]string{{}, {"log"}, {"reRun"}, {"log", "reRun"}, {"reQueue"}, {"log", "reRun", "reQueue"}}[cell["handlers"]]
+			for _, h := range set {
+				m := map[string]any{"errorHandler": h}
+				switch h {
+				case "log", "reQueue":
+					if g.P(0.5) {
+						m["maxItems"] = float64(g.Range(0, 3))
+					}
+				case "reRun":
+					m["maxRetries"], m["retryDelay"] = float64(g.Range(0, 3)), float64(g.PickInt([]int{1, 2, 7, 20}))
+				}
+				l = append(l, m)
+			}
+			return l
+		}
 		if g.P(0.45) {
 			m := map[string]any{"errorHandler": g.Pick([]string{"log", "log", "Log"})}
 			if g.P(0.5) {
@@ -1665,7 +1694,12 @@ func genC11(g *G, sc *Scenario, tier string) {
 	}
 	trigger := func() map[string]any {
 		t := map[string]any{"jobType": g.Pick([]string{"incremental", "incremental", "fullsync"})}
-		if g.P(0.6) {
+		cron := g.P(0.6)
+		if walk {
+			t["jobType"] = []string{"incremental", "fullsync"}[cell["type"]]
+			cron = cell["trigger"] == 0
+		}
+		if cron {
 			t["triggerType"] = "cron"
 			t["schedule"] = fmt.Sprintf("@every %ds", g.PickInt([]int{1, 2, 3, 5, 7, 11}))
 		} else {
@@ -1708,7 +1742,14 @@ func genC11(g *G, sc *Scenario, tier string) {
 	for i := 0; i < njobs; i++ {
 		id := fmt.Sprintf("job%d", i+1)
 		ids = append(ids, id)
-		sc.Ops = append(sc.Ops, Op{K: "addJob", M: mkJob(id)})
+		walk = i == 0
+		cfg := mkJob(id)
+		if walk {
+			cfg["paused"] = false
+			cfg["triggers"] = cfg["triggers"].([]any)[:1]
+		}
+		walk = false
+		sc.Ops = append(sc.Ops, Op{K: "addJob", M: cfg})
 	}
 	// planned faults by arrival count
 	for i := g.Intn(4); i > 0; i-- {
